@@ -234,6 +234,14 @@ impl Store {
                 TransactionAndTables::new(tx)?
             }
             CurrentTransaction::Write(w) => {
+                #[cfg(iroh_docs_verif)]
+                let w = {
+                    let mut w = w;
+                    if crate::verif::tx_call_is_aged() {
+                        w.since -= MAX_COMMIT_DELAY * 2;
+                    }
+                    w
+                };
                 if w.since.elapsed() > MAX_COMMIT_DELAY {
                     tracing::debug!("committing transaction because it's too old");
                     w.commit()?;
@@ -271,6 +279,14 @@ impl Store {
                 TransactionAndTables::new(tx)?
             }
             CurrentTransaction::Write(w) => {
+                #[cfg(iroh_docs_verif)]
+                let w = {
+                    let mut w = w;
+                    if crate::verif::tx_call_is_aged() {
+                        w.since -= MAX_COMMIT_DELAY * 2;
+                    }
+                    w
+                };
                 if w.since.elapsed() > MAX_COMMIT_DELAY {
                     tracing::debug!("committing transaction because it's too old");
                     w.commit()?;
